@@ -13,6 +13,7 @@ func init() {
 	vpRegister("VPH_C17_idle", VPH_C17_idle)
 	vpRegister("VPH_C17_close", VPH_C17_close)
 	vpRegister("VPH_C17_listen_any_idle_timeout", VPH_C17_listen_any_idle_timeout)
+	vpRegister("VPH_C17_accept_refusals", VPH_C17_accept_refusals)
 }
 
 // VPH_C17_accounting: a sequence of connection opens and closes with a symbolic MaxConnections.
@@ -113,6 +114,16 @@ func VPH_C17_close() {
 	if node, err := env.nfs.Lookup("/d"); err == nil {
 		env.nfs.ReadDir(node)
 	}
+	// the options can change between the last request and the shutdown; the cache objects made at
+	// construction stay in use whatever the flags say afterwards
+	switch vpChoose("update-before-shutdown", 0, 2) {
+	case 1:
+		env.nfs.UpdateTuningOptions(func(t *TuningOptions) { t.EnableDirCache = false; t.CacheNegativeLookups = false })
+		vpReach("cache-flags-switched-off-at-run-time")
+	case 2:
+		env.nfs.UpdateExportOptions(ExportOptions{ReadOnly: true})
+		vpReach("options-replaced-at-run-time")
+	}
 	useClose := vpBool("close")
 	for rep := 0; rep < 2; rep++ {
 		var err error
@@ -166,5 +177,55 @@ func VPH_C17_listen_any_idle_timeout() {
 	}
 	replies, ok := vpSplitRecords(out)
 	vpAssert(vpAnd(closed, vpAnd(ok, len(replies) == 1)), "client-served")
+	l.Close()
+}
+
+// VPH_C17_accept_refusals: clients the accept loop turns away for their address are not counted:
+// after 0..2 such clients an allowed client is still served under MaxConnections 1 or 2, and once
+// it has gone the counter and the tracking map are back at zero.
+func VPH_C17_accept_refusals() {
+	refused := vpChoose("refused-clients-first", 0, 2)
+	max := vpChoose("maxconnections", 1, 2)
+	fs := vpStdTree()
+	env := vpServer(fs, ExportOptions{AllowedIPs: []string{"127.0.0.1"}, MaxConnections: max})
+	var conns []*vpConn
+	for i := 0; i < refused; i++ {
+		conns = append(conns, &vpConn{in: vpClientCall(7, NFS_PROGRAM, NFS_V3, NFSPROC3_NULL, nil), remote: "10.9.9.9:800"})
+	}
+	good := &vpConn{in: vpClientCall(9, NFS_PROGRAM, NFS_V3, NFSPROC3_NULL, nil), remote: "127.0.0.1:800"}
+	conns = append(conns, good)
+	l := &vpListener{addr: "127.0.0.1:2049", conns: conns, done: make(chan struct{})}
+	vpListeners = map[string]*vpListener{"": l}
+	defer func() { vpListeners = nil }()
+	s, err := NewServer(ServerOptions{Name: "vp", Port: 2049, Hostname: "localhost", UseRecordMarking: true})
+	vpAssert(err == nil, "server-created")
+	s.SetHandler(env.nfs)
+	vpAssert(s.Listen() == nil, "listen-starts")
+	var closed bool
+	var out []byte
+	for i := 0; i < 500; i++ {
+		if closed, out = good.served(); closed {
+			break
+		}
+		time.Sleep(10 * time.Millisecond)
+	}
+	replies, ok := vpSplitRecords(out)
+	vpAssert(vpAnd(closed, vpAnd(ok, len(replies) == 1)), "allowed-client-served-after-refused-ones")
+	for i := 0; i < refused; i++ {
+		c, o := conns[i].served()
+		vpAssert(vpAnd(c, len(o) == 0), "disallowed-client-closed-unanswered")
+		vpReach("client-refused-for-its-address")
+	}
+	count, tracked := -1, -1
+	for i := 0; i < 500; i++ {
+		s.connMutex.Lock()
+		count, tracked = s.connCount, len(s.activeConns)
+		s.connMutex.Unlock()
+		if count == 0 && tracked == 0 {
+			break
+		}
+		time.Sleep(10 * time.Millisecond)
+	}
+	vpAssert(vpAnd(count == 0, tracked == 0), "nothing-counted-once-every-connection-ended")
 	l.Close()
 }
